@@ -411,3 +411,130 @@ def cases_c16(ctx):
                     continue
                 jobs.append((layout, path_kind, ("none", "zod")[k % 2], seq, seed * 10 + k % 3, ctx["tables"]))
     return list(POOL.map(lambda a: c16_case(*a), jobs))
+
+
+# ----------------------------------------------------------------------------------------------- C19
+def c19_project(root, rel, cmd):
+    proc.write_files(os.path.join(root, rel), {"lib.rs": "#[tauri::command]\npub fn %s(id: i32) -> String {\n    todo!()\n}\n" % cmd})
+
+
+def c19_resolve_case(flags, filecfg, tables):
+    """one combination of command-line flags and a discovered tauri.conf.json block"""
+    root = proc.sandbox("c19")
+    try:
+        c19_project(root, "src-tauri", "from_default")
+        c19_project(root, "projA", "from_file")
+        c19_project(root, "projB", "from_flag")
+        doc = None
+        if filecfg is not None:
+            doc = {"productName": "demo", "plugins": {"typegen": filecfg}}
+            with open(os.path.join(root, "tauri.conf.json"), "w") as fh:
+                json.dump(doc, fh)
+        args = ["generate"]
+        if "p" in flags:
+            args += ["-p", flags["p"]]
+        if "o" in flags:
+            args += ["-o", flags["o"]]
+        if "v" in flags:
+            args += ["-v", flags["v"]]
+        if flags.get("verbose"):
+            args += ["--verbose"]
+        if flags.get("force"):
+            args += ["--force"]
+        before = proc.snapshot(root)
+        rc, so, se = proc.run_cli(root, args)
+        after = proc.snapshot(root)
+        wrote = before != after
+        observed = None
+        if rc != 0:
+            kind = "library" if "alidation library" in se else ("path" if "Project path does not exist" in se else "other")
+            observed = {"err": kind}
+        else:
+            outdir = None
+            for cand in set([flags.get("o"), (filecfg or {}).get("outputPath"), "./src/generated"]) - {None}:
+                if os.path.isfile(os.path.join(root, cand, "commands.ts")):
+                    outdir = cand
+            if outdir is None:
+                observed = {"err": "no output found"}
+            else:
+                cmds = open(os.path.join(root, outdir, "commands.ts")).read()
+                types = open(os.path.join(root, outdir, "types.ts")).read()
+                proj = {"fromDefault": "./src-tauri", "fromFile": "projA", "fromFlag": "projB"}
+                pp = [v for k, v in proj.items() if ("function " + k) in cmds]
+                lib = "zod" if "Generator: zod" in types else "none"
+                verbose = "Found 1 Tauri commands" in so or "🔍" in so
+                # force: a second identical invocation rewrites iff force is in effect
+                s1 = proc.snapshot(os.path.join(root, outdir))
+                proc.run_cli(root, args)
+                s2 = proc.snapshot(os.path.join(root, outdir))
+                observed = {"ok": {"projectPath": pp[0] if pp else "?", "outputPath": outdir, "validationLibrary": lib,
+                                   "verbose": verbose, "force": s1.get("types.ts") != s2.get("types.ts")}}
+        existing = ["./src-tauri", "projA", "projB"]
+        req = {"op": "configResolve", "h": core.hashlib.sha1(json.dumps([flags, filecfg], sort_keys=True).encode()).hexdigest()[:16],
+               "in": {"flags": flags, "doc": doc, "existing": existing},
+               "impl": {"observed": observed, "wrote_anything": wrote and rc != 0}, "meta": {}}
+        return Case({"what": "resolve", "flags": flags, "file": filecfg}, {}, [], request=req,
+                    detail={"rc": rc, "stderr": se[-300:], "observed": observed})
+    finally:
+        proc.cleanup(root)
+
+
+def c19_init_case(lib, plugins_value):
+    """init: an unsupported library is rejected before the configuration file is touched"""
+    root = proc.sandbox("c19i")
+    try:
+        c19_project(root, "src-tauri", "from_default")
+        doc = {"productName": "demo", "identifier": "x"}
+        if plugins_value is not None:
+            doc["plugins"] = plugins_value
+        cfgp = os.path.join(root, "src-tauri", "tauri.conf.json")
+        with open(cfgp, "w") as fh:
+            json.dump(doc, fh, indent=2)
+        before = open(cfgp).read()
+        snap = proc.snapshot(root)
+        rc, so, se = proc.run_cli(root, ["init", "-p", "src-tauri", "-g", "out", "-v", lib])
+        after = open(cfgp).read()
+        snap2 = proc.snapshot(root)
+        valid = lib in ("zod", "none") and (plugins_value is None or isinstance(plugins_value, dict))
+        if valid:
+            written = json.loads(after).get("plugins", {}).get("typegen", {})
+            ok = rc == 0 and written.get("validationLibrary") == lib and all(
+                json.loads(after).get(k) == v for k, v in doc.items() if k != "plugins")
+            return Case({"what": "init", "lib": lib, "plugins": plugins_value}, {"init_stores_settings": ok}, [],
+                        detail={"rc": rc, "stderr": se[-200:]})
+        return Case({"what": "init", "lib": lib, "plugins": plugins_value},
+                    {"rejected_with_error": rc != 0, "nothing_written_on_rejection": snap == snap2}, [],
+                    detail={"rc": rc, "stderr": se[-200:], "config_changed": before != after})
+    finally:
+        proc.cleanup(root)
+
+
+def cases_c19(ctx):
+    tier = ctx["tier"]
+    if ctx["replay"]:
+        d = ctx["replay"]["replay_case"]
+        if d.get("what") == "init":
+            return [c19_init_case(d["lib"], d["plugins"])]
+        return [c19_resolve_case(d["flags"], d["file"], ctx["tables"])]
+    files = [None,
+             {"projectPath": "projA", "outputPath": "outFile", "validationLibrary": "zod"},
+             {"projectPath": "projA", "outputPath": "outFile", "validationLibrary": "zod", "verbose": True, "force": True},
+             {"projectPath": "projA", "outputPath": "outFile", "validationLibrary": "yup"},
+             {"projectPath": "missing/dir", "outputPath": "outFile", "validationLibrary": "zod"},
+             {"outputPath": "outFile"},
+             {}]
+    jobs = []
+    flag_keys = [("p", "projB"), ("o", "outFlag"), ("v", "none"), ("verbose", True), ("force", True)]
+    for mask in range(32):
+        flags = {k: v for i, (k, v) in enumerate(flag_keys) if mask >> i & 1}
+        for f in files:
+            if tier != "thorough" and (mask % 3 == 2) and f not in (files[1], files[3], files[4]):
+                continue
+            jobs.append((flags, f, ctx["tables"]))
+    jobs.append(({"v": "yup"}, files[1], ctx["tables"]))
+    jobs.append(({"p": "nowhere"}, files[1], ctx["tables"]))
+    out = list(POOL.map(lambda a: c19_resolve_case(*a), jobs))
+    for lib in ("none", "zod", "yup", "Zod"):
+        for pl in (None, {}, {"shell": {"open": True}}, "oops", [1]):
+            out.append(c19_init_case(lib, pl))
+    return out
